@@ -19,6 +19,20 @@ class C06(SCheck):
     assumptions = ["preemption at system-call boundaries and at seeded points after atomic instructions (DESIGN 2.7)", "tmpfs stands in for the file system", "trees are small (<= ~20 entries)"]
 
     def gen_case(self, r, idx, tier):
+        if idx % 6 == 3:
+            # race shape: many files of two or three blocks, so that the last two holders of a file's handle (two block jobs, or a
+            # job and the dispatcher) finish close together many times per run; every schedule of such a case also preempts in
+            # user space (DESIGN 2.7)
+            bs = r.choice([4096, 8192])
+            ops = [gen.d_op("src")]
+            for i in range(r.randrange(10, 20)):
+                ops.append(gen.f_op("src/t%02d" % i, bs * r.choice([1, 2, 2, 3]) + r.choice([0, 1, 100]), pat=r.randrange(1, 1 << 30),
+                                    mode=r.choice([0o640, 0o600, 0o755]), mtime=1_000_000_000_000_000_000 + i))
+            flags = {"r": True}
+            if r.random() < 0.3:
+                flags["fsync"] = True
+            inv = gen.mk_inv(["src"], "dst", block_size=bs, **flags)
+            return {"setup": ops, "steps": [{"inv": inv}], "kernel": {}, "max_events": 400000, "race_shape": True}
         bs = r.choice([4096, 65536, 7, 1 << 20, 1000])
         cap = 40_000 if bs < 64 else 200_000
         ops = gen.small_tree(r, "src", nfiles=r.randrange(2, 9), links=True, specials=r.random() < 0.2, odd_names=r.random() < 0.3,
@@ -57,6 +71,13 @@ class C06(SCheck):
         for j in range(k):
             drv = "parfile" if j % 2 == 0 else "parblock"
             w = r.choice([1, 2, 4, 16, 64]) if j >= 2 else r.choice([2, 4])
+            if case.get("race_shape"):
+                drv = "parfile" if j == 0 else "parblock"
+                w = r.choice([2, 3, 4, 8])
+                sp = gen.sched_plan(r, ustep=1.0)
+                sp["ustep_budget"] = 300
+                plans.append({"seed": r.randrange(1 << 48), "sched": sp, "inv_override": {"driver": drv, "workers": w}})
+                continue
             plans.append({"seed": r.randrange(1 << 48), "sched": gen.sched_plan(r, ustep=self.ustep_rate), "inv_override": {"driver": drv, "workers": w}})
         return plans
 
